@@ -367,6 +367,63 @@ func runC20(ctx *Ctx) {
 	}
 	ctx.Cov.Component("catalog of a document vs catalog with one fresh declaration added (specification on the implementation)", ctx.Cov.Evaluations, len(ctx.Violations), "")
 	c20DotPaths(ctx, r)
+	c20InheritingInteractions(ctx)
+}
+
+// c20InheritingInteractions: hand-written documents whose INTERACTIONS hold schemas with an allOf rule (query, request and
+// response headers and bodies — the passes that run over all interactions after the catalog is built) and whose types
+// inherit from one another; one fresh declaration of every kind at every position: every old entry unchanged.
+func c20InheritingInteractions(ctx *Ctx) {
+	bases := []string{
+		"TYPE @pet\n{\n  \"id\": 1,\n  \"name\": \"Tom\"\n}\n" +
+			"GET /cats\n  200\n  { // {allOf: \"@pet\"}\n    \"color\": \"red\"\n  }\n" +
+			"POST /cats\n  Request\n    Headers\n    { // {allOf: \"@pet\"}\n      \"h\": \"x\"\n    }\n    Body\n    { // {allOf: \"@pet\"}\n      \"b\": 2\n    }\n  201\n    Headers\n    { // {allOf: \"@pet\"}\n      \"r\": \"y\"\n    }\n    Body any\n",
+		"GET /dogs\n  Query\n  { // {allOf: \"@q\"}\n    \"limit\": 10\n  }\n  200 any\n" +
+			"TYPE @q\n{ // {allOf: \"@page\"}\n  \"sort\": \"asc\"\n}\nTYPE @page\n{\n  \"page\": 1\n}\n" +
+			"URL /birds\n  PUT\n    Request\n    { // {allOf: [\"@q\", \"@page2\"]}\n      \"z\": 1\n    }\n    200 @q\nTYPE @page2\n{\n  \"size\": 5\n}\n",
+	}
+	cases := 0
+	for bi, base := range bases {
+		blocks := splitTopBlocks(base)
+		b0 := RunProject(SingleFile([]byte("JSIGHT 0.3\n"+base)), false)
+		if !b0.Accepted() {
+			ctx.Break(fmt.Sprintf("locality: the hand-written base document %d is not accepted: %s", bi, b0.Verdict()))
+			continue
+		}
+		_, v0, err := unorderedCatalog(b0.JSON, nil)
+		if err != nil {
+			continue
+		}
+		for _, fb := range freshBlocks(500 + bi) {
+			ft, _ := (&ApiModel{Blocks: []BlockM{fb}}).Render(PlainStyle(), false)
+			for pos := 0; pos <= len(blocks); pos++ {
+				doc := "JSIGHT 0.3\n" + strings.Join(blocks[:pos], "") + string(ft) + strings.Join(blocks[pos:], "")
+				b1 := RunProject(SingleFile([]byte(doc)), false)
+				cases++
+				ctx.Cov.Count([]byte(doc), true)
+				ctx.Cov.Hit("added " + fb.Kind + " to a document whose interactions inherit")
+				in := projectInput(SingleFile([]byte(doc)))
+				in["op"] = "add"
+				in["original"] = hx([]byte("JSIGHT 0.3\n" + base))
+				if b1.Panic != "" {
+					continue
+				}
+				if !b1.Accepted() {
+					ctx.Violate(Violation{Kind: "wrong-output", Site: "locality", What: fmt.Sprintf("adding a fresh %s makes the document rejected: %s", fb.Kind, b1.Verdict()),
+						Input: in, Observed: b1.Verdict(), Expected: "accepted", Signature: "add-rejected:" + fb.Kind})
+					continue
+				}
+				_, v1, err := unorderedCatalog(b1.JSON, nil)
+				if err != nil {
+					continue
+				}
+				if msg := onlyAdded(v0, v1, fb); msg != "" {
+					ctx.Violate(Violation{Kind: "wrong-output", Site: "locality", What: fmt.Sprintf("adding a fresh %s to a document whose interactions inherit through allOf: %s", fb.Kind, msg), Input: in, Signature: "add-changed:" + fb.Kind})
+				}
+			}
+		}
+	}
+	ctx.Cov.Component("documents whose interactions hold allOf schemas + one fresh declaration of every kind at every position", cases, len(ctx.Violations), "")
 }
 
 // c20DotPaths: a fresh method whose path is textually unrelated to the existing ones but contains "." / ".." segments
